@@ -3,7 +3,24 @@ import json
 from core import cN, cbool, copt, clist
 
 LEVEL = "proof"
-READY = False
+READY = True
+MANIFEST = {
+    "technique": "Coq proof (invariants by induction over header histories) on a faithful Gallina model of liskbft + differential correspondence with the real module evaluated in Coq",
+    "text": "Theorems for every header chain (any length relative to the 3-round window, any weights, batch size and parameter-change "
+            "schedule): the BFT view is a function of the header sequence (same chain => same view); one block changes the vote "
+            "weights exactly by the LIP-0058 counting rule (C02_vote_counting_rule: precommits to windowed entries above "
+            "max(minActive, heightNotPrevoted+1, largestHeightPrecommit+1) that already have a prevote quorum, then prevotes above "
+            "max(maxHeightGenerated+1, minActive)); maxHeightPrevoted/Precommitted are the largest windowed heights reaching the "
+            "threshold in force at that height and never decrease; parameters of heights still in the window are never changed by "
+            "pruning or SetBFTParameters; the window is the most recent 3*batch headers. Round-robin finality (block j final once "
+            "block j+2*thr-1 is applied) is proved only for n=1..12, 60 blocks (finite domain, by evaluation; named _partial). The model is "
+            "tied to the Go module by running random histories (parameter changes, joining/leaving validators, deviating "
+            "generators, chains longer than the window) on the real liskbft.Module/API over diffdb+pebble and comparing after every "
+            "block heights, weights, per-validator info, parameter keys and flags with the model evaluated inside Coq.",
+    "note": "Trusted: Coq kernel + vm_compute; fidelity of the hand-written model as sampled by the correspondence; Go harness and "
+            "verif hook VerifC02DumpVotes; heights modelled as unbounded N (chains below 2^32-1); the certified height is taken "
+            "from the header's aggregate commit without checking it (that is C06). Generator keys store not modelled.",
+}
 IMPORTS = "From LE Require Import BFT.Contradiction BFT.Votes Corr.C02."
 
 
@@ -41,10 +58,13 @@ def evaluate(ck, recs, tag="hist"):
         if last and last["err"] == 0 and last["heights"][1] > c["gh"]:
             ck.nontrivial(json.dumps(c["blocks"], sort_keys=True))
         if code != 0:
-            f = dict(kind="history", key="c02:model", case={k: c[k] for k in ("k", "batch", "gh", "init", "blocks", "commit")},
-                     what="liskbft module differs from the proved vote model on a header history (%d blocks)" % len(c["blocks"]),
+            spec = code >= 2
+            f = dict(kind="history", key="c02:rules" if spec else "c02:model", case={k: c[k] for k in ("k", "batch", "gh", "init", "blocks", "commit")},
+                     what=("liskbft heights / vote weights / contradiction flag differ from the LIP-0058 counting rules on this header "
+                           "history (%d blocks)" if spec else "liskbft bookkeeping (active-validator info, parameter keys, "
+                           "ImpliesMaximalPrevotes, NextHeightBFTParameters) differs from the model on this history (%d blocks)") % len(c["blocks"]),
                      observed=c["obs"], theorem_or_correspondence="Corr.C02.check_hist vs liskbft.Module/API")
-            f["spec_violated"] = False
+            f["spec_violated"] = spec
             ck.failures.append(f)
     return res
 
